@@ -386,6 +386,7 @@ def jobs(tier):
     dummy = SimpleNamespace(TimePoint=None, Duration=None, TimeRecurrence=None, TimeZone=None)
     modes = C.MODES4 if th else ["gregorian"]
     for mode in modes:
+        last = {"gregorian": 366, "360day": 360, "365day": 365, "366day": 366}[mode]
         for op in point_ops(dummy):
             reps = C.REPS if th else (["ord", "cal"] if ("p - q" in op or "__" in op or "truncated" in op) else C.REPS)
             for rep in reps:
@@ -410,7 +411,7 @@ def jobs(tier):
         for op in recurrence_ops(dummy):
             for fmt in (1, 3, 4, 0, 31, 41) + ((11,) if tier == "thorough" else ()):
                 J.append(("job_ops", dict(family="recurrence", opname=op, mode=mode, rep="ord", fmt=fmt,
-                                          ranges={"DOYr": (364, 366), "DOYs": (364, 366), "DOYq": (1, 3), "hd": (-13, 13),
+                                          ranges={"DOYr": (last - 2, last), "DOYs": (last - 2, last), "DOYq": (1, 3), "hd": (-13, 13),
                                                   "dd": (-1, 1)})))
     return J
 
@@ -432,7 +433,7 @@ INFO = {
                    "length no sequence of operations can then alter an earlier value.",
     "bounds": {"quick": {"points": "years 1704 and 2104, dates around end of February / year end / week 52-53, offsets +-3:59, any time incl. 24:00",
                          "durations": "days +-2, hours +-25, minutes/seconds +-1 (every zero/non-zero/sign pattern); nominal years +-2 months +-3 days +-3; weeks +-8",
-                         "recurrences": "3 repetitions of PT36H in the three notations, an unbounded P1D series and single-point recurrences (R1/start/.., R1/../end), anchors on days 364-366",
+                         "recurrences": "3 repetitions of PT36H in the three notations, an unbounded P1D series and single-point recurrences (R1/start/.., R1/../end), anchors on the last three days of the year",
                          "modes": "gregorian"},
                "thorough": {"modes": "all 4", "representations": "every operation in all 3 representations"}},
     "outside": ["str()/dump/strftime as operations (string layer)", "private _-methods called directly", "attribute assignment by the user",
